@@ -46,6 +46,7 @@ PHASES = {
     ],
     "C02": [
         {"pkg": "e2", "test": "TestC02Delivery", "phase": "C02/acknowledged-publish-delivered"},
+        {"pkg": "e2", "test": "TestC02Stalled", "phase": "C02/stalled-subscriber"},
     ],
     "C01": [
         {"pkg": "e1", "test": "TestC01Matcher", "phase": "C01/matcher-pairs"},
